@@ -161,8 +161,12 @@ def gen_source(rng, depth=0, allow_include=True, nlines=None, files=None, macros
                 pieces.insert(rng.randrange(len(pieces) + 1), rand_comment(rng))
             line = ' '.join(pieces)
             if rng.random() < 0.1 and len(line) > 4:
-                j = rng.randrange(1, len(line))
-                line = line[:j] + '\\' + eol + line[j:]
+                # one to three splices in one logical line, each physical line with its own line end
+                for _s in range(rng.choice([1, 1, 2, 3])):
+                    j = rng.randrange(1, len(line))
+                    if line[j - 1] in '\\\r' or line[j:j + 1] in ('\n', '\r'):
+                        continue
+                    line = line[:j] + '\\' + rng.choice(['\n', '\n', '\r\n', eol]) + line[j:]
             out.append(line + eol)
     for _ in range(open_ifs):
         if rng.random() < 0.9:
